@@ -129,7 +129,7 @@ TEXT_BLOBS = {"txtall": [b"  1   1.5x01.02.2003abaxkabcd\n", b"  1      x       
                          b"  1   1.5x01.02.2003abaxkabc", b"", b"  1   1.5z01.02.2003abaxkabcd\n  2   2.5y            \n"],
               "csvall": [b"1,1.5,x,01.02.2003,ab,ax,k,abcd\n", b"1,,x,,,,,\n", b"1,NaN,x,,,,,\n", b"1,1.5,x,31.02.2003,,,,\n", b"1,1.5\n"],
               "csv": [b"1,x\n", b"1,\xff\n", b'1,"x\n', b"1,x\x00y\n", b"\xff\xfe1\x00", b"1,x\r\r\n2,y", b'1,"a"b\n', b"", b"\n\n", b"1\n", b"1,2,3\n", b"a,b\n", b"1,\xc3\n"],
-              "txt": [b"  1abcde\n", b"  1abc", b"  1abcde\r\n", b"  1ab\xffde\n", b"", b"\n", b"  1abcdeX", b"  1abcde\n  2", b"\xe4" * 8 + b"\n", b"  1abcd\xc3"]}
+              "txt": [b"  1abcde\n", b"  1abc", b"  1abcde\r\n", b"  1ab\xffde\n", b"", b"\n", b"  1abcdeX", b"  1abcde\n  2", b"\xe4" * 8 + b"\n", b"  1abcd\xc3", b"  1abcde\xc3", b"  1abcde\xff\n", b"  1abcde\n  2abcde\xc3\xc3", (b"  1abcde\n" * 1024)[:-1] + b"\xff"]}
 for _k in list(DATA_CID):
     if "+" in _k:
         TEXT_BLOBS[_k] = [b"1,x\n", b"  1abcde\n", b"\xff\xfe1\x00,\x00x\x00\n\x00", b"\\u12", b"xn--\xff", b"+AGE-,x\n", b"", b"\xff"]
